@@ -345,7 +345,7 @@ def div(a, b):
 
 
 # ----------------------------------------------------------------------------- functions
-_ODD = {"sinh", "tanh", "sin", "arcsinh", "erf", "arctan"}
+_ODD = {"sinh", "tanh", "sin", "arcsinh", "erf", "arctan", "arcsin"}
 _EVEN = {"cosh", "cos"}
 
 
@@ -411,13 +411,27 @@ def fn(name, a):
         q = _pi_multiple(a)
         if q is not None:
             return cospi(q) if name == "cos" else cospi(Fraction(1, 2) - q)
-    if name in ("sinh", "tanh", "sin", "arcsinh", "erf", "arctan") and a is ZERO:
+    if name == "arcsin" and a.op == "const" and not isinstance(cval(a), QS) and abs(cval(a)) == 1:
+        return const(QS({(1, -2): Fraction(1, 2) * cval(a)}))
+    if name in ("sinh", "tanh", "sin", "arcsinh", "erf", "arctan", "arcsin") and a is ZERO:
         return ZERO
     if name in ("cosh", "cos") and a is ZERO:
         return ONE
     if name == "exp":
         if a is ZERO:
             return ONE
+        if a.op == "mul":
+            # exp(t*(u+v)) : distribute so that exp(a+b) -> exp(a)*exp(b) applies
+            fs = a.args[0]
+            hit = [(b, e) for b, e in fs if b.op == "add" and e == 1]
+            if len(hit) == 1:
+                rest = ONE
+                for b, e in fs:
+                    if b is not hit[0][0]:
+                        rest = mul(rest, powi(b, e))
+                c0, terms = hit[0][0].args
+                REWRITES.add("exp(t*(u+v)) -> exp(t*u + t*v)")
+                return fn("exp", addn([mul(rest, const(c0))] + [mul(rest, scale(c, t)) for t, c in terms]))
         if a.op == "fn" and a.args[0] == "log":
             REWRITES.add("exp(log t) -> t  [t > 0]")
             return a.args[1]
@@ -611,6 +625,8 @@ def _dfn(name, a):
         return powi(root(add(powi(a, 2), ONE), 2), -1)
     if name == "arctan":
         return powi(add(powi(a, 2), ONE), -1)
+    if name == "arcsin":
+        return powi(root(sub(ONE, powi(a, 2)), 2), -1)
     if name == "erf":
         return mul(const(QS({(1, 1): Fraction(2)})), fn("exp", neg(powi(a, 2))))
     raise NotImplementedError(name)
@@ -743,6 +759,8 @@ def evalf(n, env, m=None, memo=None, ufs=None):
             r = {"tanh": lambda: (ep - em) / (ep + em), "sinh": lambda: (ep - em) / 2, "cosh": lambda: (ep + em) / 2}[name]()
         elif name == "arctan":
             r = m.atan(x)
+        elif name == "arcsin":
+            r = m.asin(x)
         elif name == "erf":
             if m is not mpmath.mp:
                 raise NotGround("erf interval")
